@@ -631,7 +631,7 @@ func (o *ovsdbClient) update(params []json.RawMessage, reply *[]interface{}) err
 		o.metrics.numTableUpdates.WithLabelValues(cookie.DatabaseName, tableName).Inc()
 	}
 
-	verifPause("update:pre-lock")
+	verifPause(o, "update:pre-lock")
 	db.cacheMutex.Lock()
 	if db.deferUpdates {
 		db.deferredUpdates = append(db.deferredUpdates, &bufferedUpdate{&updates, nil, ""})
@@ -673,7 +673,7 @@ func (o *ovsdbClient) update2(params []json.RawMessage, reply *[]interface{}) er
 		return fmt.Errorf("update: invalid database name: %s unknown", cookie.DatabaseName)
 	}
 
-	verifPause("update:pre-lock")
+	verifPause(o, "update:pre-lock")
 	db.cacheMutex.Lock()
 	if db.deferUpdates {
 		db.deferredUpdates = append(db.deferredUpdates, &bufferedUpdate{nil, &updates, ""})
@@ -721,7 +721,7 @@ func (o *ovsdbClient) update3(params []json.RawMessage, reply *[]interface{}) er
 		return fmt.Errorf("update: invalid database name: %s unknown", cookie.DatabaseName)
 	}
 
-	verifPause("update:pre-lock")
+	verifPause(o, "update:pre-lock")
 	db.cacheMutex.Lock()
 	if db.deferUpdates {
 		db.deferredUpdates = append(db.deferredUpdates, &bufferedUpdate{nil, &updates, lastTransactionID})
@@ -847,7 +847,7 @@ func (o *ovsdbClient) transact(ctx context.Context, dbName string, skipChWrite b
 		return nil, err
 	}
 
-	verifPause("transact:post-rpc")
+	verifPause(o, "transact:post-rpc")
 	if !skipChWrite && o.trafficSeen != nil {
 		o.trafficSeen <- struct{}{}
 	}
@@ -1002,7 +1002,7 @@ func (o *ovsdbClient) monitor(ctx context.Context, cookie MonitorCookie, reconne
 	default:
 		return fmt.Errorf("unsupported monitor method: %v", monitor.Method)
 	}
-	verifPause("monitor:reply")
+	verifPause(o, "monitor:reply")
 
 	if err != nil {
 		if err == rpc2.ErrShutdown {
